@@ -476,6 +476,9 @@ func MergeConditionIfCFSQuotaIsLarger(oldValue, newValue string) (string, bool, 
 
 	// cgroup-v2 content: "max 100000", "100000 100000"
 	if sysutil.GetCurrentCgroupVersion() == sysutil.CgroupVersionV2 {
+		if newValue == sysutil.CgroupUnlimitedSymbolStr { // cpu.max only accepts "max"
+			newValue = sysutil.CgroupMaxSymbolStr
+		}
 		oldV, err = sysutil.ParseCPUCFSQuotaV2(oldValue)
 		if err != nil {
 			return newValue, false, fmt.Errorf("cannot parse old value %s, err: %v", oldValue, err)
